@@ -540,6 +540,30 @@ func runC18(res *lib.Result, tier string, seed int64, args []string) error {
 				}
 			}
 		}
+		// a SECOND candidate appears for a require that already resolves: name.lua is created at the workspace root while the
+		// analysis has loaded some dir/…/name.lua — every line is re-checked (the analysis and go-to-definition on the string
+		// must still agree, whichever file they choose)
+		for j, m := range mods {
+			if strings.ContainsAny(m, "./:") || inList(allFiles, m+".lua") {
+				continue
+			}
+			if o0, _ := observe(j); o0.defWho == "" || !strings.Contains(o0.defWho, "/") {
+				continue
+			}
+			newRel := m + ".lua"
+			if err := lib.WriteWorkspace(dir, map[string]string{newRel: "local M = {}\nM.who = 77\nreturn M\n"}); err != nil {
+				return err
+			}
+			sess.Watched(map[string]int{newRel: 1})
+			sess.Sync()
+			luaFiles = append(luaFiles, newRel)
+			allFiles = append(allFiles, newRel)
+			res.Dist("dynamic.create-second-candidate")
+			for k := range mods {
+				checkLine(k, fmt.Sprintf("after creating a second candidate %s (didChangeWatchedFiles): ", newRel))
+			}
+			break
+		}
 		sess.Close()
 		os.RemoveAll(base)
 	}
